@@ -227,11 +227,18 @@ class Module:
         self.lines = src.splitlines()
         # helpers that the reference tree does not know (the product of an `extract function` refactoring) are inlined back
         # into their call sites, in memory only (see sa/inline.py)
-        from . import inline
+        from . import dispatch, inline, relocate
+        # dispatch tables the reference tree does not know are expanded back into conditional chains (see sa/dispatch.py)
+        self.expanded = dispatch.expand(self.tree, name)
+        # functions the reference tree knows under another name / nesting are put back first (see sa/relocate.py)
+        self.relocated = relocate.restore(self.tree, name)
         self.inlined = inline.inline_new_helpers(self.tree, name)
         # surface normalisation (in memory only): annotated assignments inside functions become plain ones, statements
         # that only talk to the standard library's logging become `pass` - both are behaviour-neutral spellings
         self.normalised = _SurfaceNormaliser(_stdlib_logger_names(self.tree)).run(self.tree)
+        # local aliases the reference tree does not know are substituted back into their uses (see sa/alias.py)
+        from . import alias
+        self.aliases_inlined = alias.inline_aliases(self.tree, name)
         # alpha-normalise locals back to the names the rules use (see sa/localsig.py); in-memory only
         from . import localsig
         self.renamed_locals = localsig.normalise(self.tree, name)
